@@ -1,8 +1,73 @@
+(* C24: accepted HTTP/1 requests have unambiguous framing.  Property theorems only.
+   Model: model/Http1Req.v -- parse_stream V = generic request-stream skeleton (read the request line and
+   the (obs-fold joined) header lines as bfe_net/textproto does, validate, read the body according to the
+   framing decision, repeat).  V_bfe = validators as coded in ReadRequest / ReadMIMEHeaderAndKeys /
+   fixTransferEncoding / fixLength; V_ref = RFC 7230 (method token, HTTP/d.d, no whitespace before the first
+   field, field-name = token, Transfer-Encoding exactly "chunked", all Content-Length values the same 1*DIGIT). *)
 From Coq Require Import List ZArith Bool.
-From Bfe Require Import lib.Val model.Http1Req proofs.Http1ReqProofs run.RunC24.
+From Bfe Require Import lib.Val lib.Bytes model.Http1Req proofs.Http1ReqProofs run.RunC24.
 Import ListNotations.
 Open Scope Z_scope.
 
-Theorem C24_placeholder : kf_C24 (VZ 0) = 0.
-Proof. exact placeholder_c24. Qed.
-Print Assumptions C24_placeholder.
+(* Generic composition: if validator set V1 refines V2 on single request heads (every head V1 accepts, V2
+   accepts with the same method/target/version/fields/framing), then on every byte stream and with any
+   fuel the requests V1 accepts are, in order and with identical content, body and boundaries, an initial
+   segment of the requests V2 accepts. *)
+Theorem skeleton_refinement :
+  forall V1 V2 : validators,
+    (forall hd m, validate V1 hd = inr m -> validate V2 hd = inr m) ->
+    forall fuel s qs e, parse_stream V1 fuel s = (qs, e) ->
+      exists qs' e', parse_stream V2 fuel s = (qs ++ qs', e').
+Proof. exact skeleton_refinement_gen. Qed.
+Print Assumptions skeleton_refinement.
+
+(* Pointwise refinement for BFE: a request head that is in none of the six finding classes
+   (head_class = 0: method is a token and version is HTTP/d.d; no whitespace before the first field; every
+   field name is a token; Transfer-Encoding, if present, is exactly "chunked"; no empty Content-Length)
+   and that BFE's validators accept is accepted by the RFC 7230 validators with the same result. *)
+Theorem C24_head_refinement :
+  forall hd m, head_class hd = 0 -> validate V_bfe hd = inr m -> validate V_ref hd = inr m.
+Proof. exact head_refine. Qed.
+Print Assumptions C24_head_refinement.
+
+(* Headline (guarded): for EVERY byte stream in which no request head that BFE reaches falls in a finding
+   class, every request the modelled ReadRequest loop accepts is the request the RFC 7230 reference parser
+   finds at the same place: same method, target, version, same non-framing fields (canonical names), same
+   body and the same end offset -- so BFE accepts nothing at a point where the reference parser rejects.
+   (The unguarded statement is false: see C24_refuted.) *)
+Theorem C24_partial : forall s,
+  stream_class (S (length s)) s = 0 -> prop_core s (fst (bfe_run s)) = true.
+Proof. exact C24_partial_lemma. Qed.
+Print Assumptions C24_partial.
+
+(* The same through the executable predicates the harness evaluates on the implementation's output. *)
+Theorem C24_prop_of_model : forall s,
+  kf_C24 (VB s) = 0 -> prop_C24 (VB s) (run_C24 (VB s)) = true.
+Proof. exact C24_prop_of_model_lemma. Qed.
+Print Assumptions C24_prop_of_model.
+
+(* The full property is refuted for the code as it is: one witness stream per finding class
+   (1 "X-A : 1"; 2 "X(bad): 1"; 3 "Transfer-Encoding: identity, chunked" + Content-Length;
+    4 whitespace before the first field; 5 "HTTP/+1.1"; 6 empty Content-Length) on which the model of BFE
+   accepts a request that the reference parser rejects.  Each was confirmed on the real ReadRequest
+   (corpus/C24/witness.case). *)
+Theorem C24_refuted :
+  refuted w_wscolon 1 /\ refuted w_nontoken 2 /\ refuted w_te 3 /\ refuted w_leadws 4 /\
+  refuted w_version 5 /\ refuted w_emptycl 6.
+Proof. exact C24_refuted_lemma. Qed.
+Print Assumptions C24_refuted.
+
+(* After the fix (/repo 17390c5): two Content-Length fields whose values differ are rejected. *)
+Theorem C24_conflicting_content_length_rejected : forall h a b r,
+  has_key s_te h = false -> get_all s_cl h = a :: b :: r -> bytes_eqb (trim4 a) (trim4 b) = false ->
+  bfe_frame h = inl 8.
+Proof. exact C24_cl_conflict_rejected_lemma. Qed.
+Print Assumptions C24_conflicting_content_length_rejected.
+
+(* Non-vacuity of C24_partial: a pipelined stream (chunked POST with a trailer, then a GET with two equal
+   Content-Length fields) is outside all classes; both requests are accepted with bodies "abc" and "xy". *)
+Example C24_nonvacuous :
+  wf_bytes w_pipeline = true /\ kf_C24 (VB w_pipeline) = 0 /\
+  length (fst (bfe_run w_pipeline)) = 2%nat /\ snd (bfe_run w_pipeline) = 0 /\
+  map o_body (fst (bfe_run w_pipeline)) = [[97;98;99]; [120;121]].
+Proof. exact C24_nonvacuous_lemma. Qed.
